@@ -328,10 +328,12 @@ def gen_forest(rnd, shape, names, snames):
         n = rnd.randint(nmin, max(nmin, 3))
         made_super = False
         for i in range(n):
-            if depth > 0 and (not made_super or rnd.random() < 0.3) and snames and (i == n - 1 or rnd.random() < 0.5):
+            if depth > 0 and (not made_super or rnd.random() < 0.3) and snames and names and (i == n - 1 or rnd.random() < 0.5):
                 sn = snames.pop()
                 body = block(depth - 1, 1)
                 lv = leaves_of(body)
+                if not lv:          # ran out of names: no empty superstate in a well-formed definition
+                    continue
                 r = rnd.random()
                 if r < 0.5 and lv:
                     body.insert(rnd.randint(0, len(body)), ('initial', rnd.choice(lv)))
